@@ -421,6 +421,8 @@ class Result:
 
 
 REQUEST_TIME_LIMIT = 10  # seconds: "bounded time"
+MAX_TIMEOUTS = 6
+_timeouts = 0
 
 
 class RequestTimeout(BaseException):
@@ -470,6 +472,11 @@ def serve(server, data: bytes, tls=False, fail_at=None, fail_exc=None, sock=None
     del CATCHALL.caught[:]
     PM.last = None
     escaped = None
+    global _timeouts
+    if _timeouts >= MAX_TIMEOUTS and _threading.current_thread() is _threading.main_thread():
+        # the server hangs again and again: do not spend REQUEST_TIME_LIMIT on every further
+        # request of this worker, report them as hanging straight away
+        return Result(b"", [], RequestTimeout("not served: %d earlier requests of this worker exceeded the time limit" % _timeouts), [], [], 0.0)
     t0 = _time.perf_counter()
     armed = _arm_alarm()
     try:
@@ -480,6 +487,8 @@ def serve(server, data: bytes, tls=False, fail_at=None, fail_exc=None, sock=None
         escaped = e
     finally:
         _disarm_alarm(armed)
+    if isinstance(escaped, RequestTimeout):
+        _timeouts += 1
     wall = _time.perf_counter() - t0
     writes = sock.collect()
     return Result(b"".join(writes), writes, escaped, list(CATCHALL.caught), list(LOG.records), wall, sock.failed, sock.nwrites)
